@@ -148,8 +148,58 @@ theorem need_le_length (reg : Registry) (pv : PV) (m : MVal) (hok : PVOK reg pv)
           (enc (.arr [.str nb, .int d.hash])).length + (enc (.arr vs)).length := by simp [encList]
       have h6 := enc_pos (.arr [.str nb, .int d.hash])
       simp only [need]; omega
-  | .grouped _ _, hok, _ => exact absurd hok (by simp [PVOK])
+  | .grouped name ms, hok, hm =>
+    obtain ⟨hname, _, hmem, _⟩ := hok
+    obtain ⟨nb, hn1, _, _⟩ := mstr_ok name hname
+    simp only [toM, bind, Option.bind, hn1] at hm
+    cases hv : toMMembers ms with
+    | none => simp [hv] at hm
+    | some members =>
+      simp [hv] at hm; subst hm
+      have h1 := needMembers_le_length reg ms members hmem hv
+      have h2 := enc_envelope_length tGrouped (.arr [.str nb, .arr members])
+      have h3 := enc_arr_ge [.str nb, .arr members]
+      have h4 := enc_arr_ge members
+      have h5 : (encList [MVal.str nb, .arr members]).length = (enc (.str nb)).length + (enc (.arr members)).length := by
+        simp [encList]
+      have h6 := enc_pos (.str nb)
+      simp only [need]; omega
   | .desc _, hok, _ => exact absurd hok (by simp [PVOK])
+theorem needMembers_le_length (reg : Registry) (ms : List PV) (members : List MVal) (hok : PVOKMembers reg ms)
+    (hm : toMMembers ms = some members) : needMembers ms ≤ (encList members).length := by
+  match ms, hok, hm with
+  | [], _, hm => simp [toMMembers] at hm; subst hm; simp [needMembers]
+  | .record d vals :: xs, hok, hm =>
+    obtain ⟨hname, _, _, _, hvals, hrest⟩ := hok
+    obtain ⟨nb, hn1, _, _⟩ := mstr_ok d.name hname
+    have hi : identM d = some (.arr [.str nb, .int d.hash]) := by simp [identM, hn1]
+    simp only [toMMembers, bind, Option.bind, hi] at hm
+    cases hv : toMList vals with
+    | none => simp [hv] at hm
+    | some vs =>
+      cases hr : toMMembers xs with
+      | none => simp [hv, hr] at hm
+      | some r =>
+        simp [hv, hr] at hm; subst hm
+        have h1 := needList_le_length reg vals vs hvals hv
+        have h2 := needMembers_le_length reg xs r hrest hr
+        have h3 := enc_arr_ge [.arr [.str nb, .int d.hash], .arr vs]
+        have h4 := enc_arr_ge vs
+        have h5 : (encList [MVal.arr [.str nb, .int d.hash], .arr vs]).length =
+            (enc (.arr [.str nb, .int d.hash])).length + (enc (.arr vs)).length := by simp [encList]
+        simp only [needMembers, encList, List.length_append]; omega
+  | .none :: _, hok, _ => exact absurd hok (by simp [PVOKMembers])
+  | .bool _ :: _, hok, _ => exact absurd hok (by simp [PVOKMembers])
+  | .int _ :: _, hok, _ => exact absurd hok (by simp [PVOKMembers])
+  | .float _ :: _, hok, _ => exact absurd hok (by simp [PVOKMembers])
+  | .str _ :: _, hok, _ => exact absurd hok (by simp [PVOKMembers])
+  | .bytes _ :: _, hok, _ => exact absurd hok (by simp [PVOKMembers])
+  | .seq _ :: _, hok, _ => exact absurd hok (by simp [PVOKMembers])
+  | .dict _ :: _, hok, _ => exact absurd hok (by simp [PVOKMembers])
+  | .dtUtc _ :: _, hok, _ => exact absurd hok (by simp [PVOKMembers])
+  | .dtIso _ :: _, hok, _ => exact absurd hok (by simp [PVOKMembers])
+  | .grouped _ _ :: _, hok, _ => exact absurd hok (by simp [PVOKMembers])
+  | .desc _ :: _, hok, _ => exact absurd hok (by simp [PVOKMembers])
 theorem needList_le_length (reg : Registry) (xs : List PV) (ms : List MVal) (hok : PVOKList reg xs)
     (hm : toMList xs = some ms) : needList xs ≤ (encList ms).length := by
   match xs, hok, hm with
@@ -268,22 +318,25 @@ theorem read_descs (hashOf : PyStr → List (PyStr × PyStr) → Nat) (ds : List
         simp only [desc_eta d hashOf hd.2, List.foldl_cons]
         exact ih bs _ (fun d' hd' => hds d' (by simp [hd'])) hr (fun b hb => hsz b (by simp [hb]))
 
+/-- what a stream carries as objects: records and grouped records -/
+def IsObj (o : PV) : Prop := (∃ d vals, o = .record d vals) ∨ (∃ name ms, o = .grouped name ms)
+
 /-- one `write` of a record, then the reader: the record's own descriptors are registered first, then the record
     comes out as written -/
-theorem read_write (hashOf : PyStr → List (PyStr × PyStr) → Nat) (st st' : WState) (d : Desc) (vals : List PV)
+theorem read_write (hashOf : PyStr → List (PyStr × PyStr) → Nat) (st st' : WState) (o : PV) (hobj : IsObj o)
     (fs : List Bytes) (rest : Bytes) (fuel : Nat)
-    (hw : write st (.record d vals) = some (st', fs)) (hhdr : st.headerWritten = true)
-    (hds : ∀ d' ∈ (newDescs st.registry (descsOf (.record d vals))).2, DescOK d' ∧ hashOf d'.name d'.fields = d'.hash)
-    (hok : PVOK st'.registry (.record d vals))
+    (hw : write st o = some (st', fs)) (hhdr : st.headerWritten = true)
+    (hds : ∀ d' ∈ (newDescs st.registry (descsOf o)).2, DescOK d' ∧ hashOf d'.name d'.fields = d'.hash)
+    (hok : PVOK st'.registry o)
     (hsz : ∀ b ∈ fs, b.length < 4294967296) :
     readFramesH hashOf (fuel + fs.length) st.registry (streamOf fs ++ rest) =
-      (rvOf (.record d vals) :: (readFramesH hashOf fuel st'.registry rest).1,
+      (rvOf o :: (readFramesH hashOf fuel st'.registry rest).1,
        (readFramesH hashOf fuel st'.registry rest).2) := by
   unfold write at hw
-  cases hdm : (newDescs st.registry (descsOf (.record d vals))).2.mapM (fun d => (toM (.desc d)).map enc) with
+  cases hdm : (newDescs st.registry (descsOf o)).2.mapM (fun d => (toM (.desc d)).map enc) with
   | none => simp [hdm] at hw
   | some dframes =>
-    cases hbm : (toM (.record d vals)).map enc with
+    cases hbm : (toM o).map enc with
     | none => simp [hdm, hbm] at hw
     | some body =>
       simp only [hdm, hbm, hhdr, if_true, Option.some.injEq, Prod.mk.injEq, List.nil_append] at hw
@@ -291,9 +344,9 @@ theorem read_write (hashOf : PyStr → List (PyStr × PyStr) → Nat) (st st' : 
       subst h1 h2
       simp only [Option.map_eq_some_iff] at hbm
       obtain ⟨m, hm, rfl⟩ := hbm
-      have hdl : dframes.length = (newDescs st.registry (descsOf (.record d vals))).2.length := by
+      have hdl : dframes.length = (newDescs st.registry (descsOf o)).2.length := by
         clear hsz
-        generalize (newDescs st.registry (descsOf (.record d vals))).2 = ds at hdm
+        generalize (newDescs st.registry (descsOf o)).2 = ds at hdm
         induction ds generalizing dframes with
         | nil => simp at hdm; subst hdm; rfl
         | cons x xs ih =>
@@ -305,22 +358,22 @@ theorem read_write (hashOf : PyStr → List (PyStr × PyStr) → Nat) (st st' : 
             | none => simp [h1, h2] at hdm
             | some r => simp [h1, h2] at hdm; subst hdm; simp [ih r h2]
       rw [streamOf_append, List.append_assoc, List.length_append, List.length_cons, List.length_nil, hdl,
-        show fuel + ((newDescs st.registry (descsOf (.record d vals))).2.length + (0 + 1)) =
-          (fuel + 1) + (newDescs st.registry (descsOf (.record d vals))).2.length by omega,
+        show fuel + ((newDescs st.registry (descsOf o)).2.length + (0 + 1)) =
+          (fuel + 1) + (newDescs st.registry (descsOf o)).2.length by omega,
         read_descs hashOf _ dframes st.registry _ (fuel + 1) hds hdm (fun b hb => hsz b (by simp [hb])),
         ← newDescs_fold, streamOf_cons]
       simp only [streamOf, List.flatMap_nil, List.append_nil]
       rw [read_step hashOf fuel _ (enc m) rest (hsz _ (by simp)), decodeFrame_obj _ _ m hok hm]
-      simp [rvOf]
+      rcases hobj with ⟨d, vals, rfl⟩ | ⟨name, ms, rfl⟩ <;> simp [rvOf]
 
 
 /-- An admissible history as seen from a writer's registry: every object is a record (possibly holding nested
-    records), every descriptor that gets emitted is encodable and is hashed by the reader as by the writer, and the
+    records) or a grouped record, every descriptor that gets emitted is encodable and is hashed by the reader as by the writer, and the
     object is admissible in the registry that is in force once its descriptors are registered. -/
 def HistOK (hashOf : PyStr → List (PyStr × PyStr) → Nat) : Registry → List PV → Prop
   | _, [] => True
   | reg, o :: os =>
-    (∃ d vals, o = .record d vals) ∧
+    IsObj o ∧
     (∀ d' ∈ (newDescs reg (descsOf o)).2, DescOK d' ∧ hashOf d'.name d'.fields = d'.hash) ∧
     PVOK (newDescs reg (descsOf o)).1 o ∧
     HistOK hashOf (newDescs reg (descsOf o)).1 os
@@ -369,9 +422,9 @@ theorem read_writeAll (hashOf : PyStr → List (PyStr × PyStr) → Nat) (objs :
         obtain ⟨st2, f2⟩ := r2
         simp [h1, h2] at hw
         obtain ⟨rfl, rfl⟩ := hw
-        obtain ⟨⟨d, vals, rfl⟩, hds, hpv, hrest⟩ := hok
+        obtain ⟨hobj, hds, hpv, hrest⟩ := hok
         obtain ⟨hreg, hh1⟩ := write_registry st st1 _ f1 h1
-        have hstep := read_write hashOf st st1 d vals f1 (streamOf f2) (fuel + f2.length) h1 hhdr hds
+        have hstep := read_write hashOf st st1 o hobj f1 (streamOf f2) (fuel + f2.length) h1 hhdr hds
           (by rw [hreg]; exact hpv) (fun b hb => hsz b (by simp [hb]))
         have ihh := ih st1 st2 f2 fuel h2 hh1 (by rw [hreg]; exact hrest) (fun b hb => hsz b (by simp [hb]))
         rw [streamOf_append, List.length_append,
